@@ -165,7 +165,8 @@ def random_cmds(rng, nmax=8, big=False):
 
 # ------------------------------------------------------------------------------- raw random texts
 ALPHA = (list('형항핫흣흡흑혀하흐엉앙앗읏읍윽어아으') * 3 + ['가', '힣', '\uac00', '\ud7a3', '\uabff', '\ud7a4'] + list('.…⋯⋮') * 3
-         + list('?!') * 4 + HEARTS + list(' \n\tab1,;') + ['　', '😀', 'é', '\r', '\u0085', '\u2028', '\u0301', '\ufe0f', '\x00'])
+         + list('?!') * 4 + HEARTS + list(' \n\tab1,;') + ['　', '😀', 'é', '\r', '\u0085', '\u2028', '\u0301', '\ufe0f', '\x00',
+            '\ufeff', '\u200b', '\u00a0', '\u00ad', '\u2060', '\U0010ffff', '\ufffd', '\x0b', '\x0c', '\x1f', '\x7f'])
 
 
 SPECIALS = list('형항핫흣흡흑혀하흐엉앙앗읏읍윽') + list('.…⋯⋮?!') + HEARTS
